@@ -127,6 +127,75 @@ def _base_stats(ex, family, fp=None, extra_shape=""):
     }
 
 
+def case_reconcile(ex, a, b):
+    """What "the same relative path" means when a side of the pair is case-insensitive (DESIGN 14).
+    (1) A case-sensitive side that holds two names differing only in case is in a state its case-insensitive
+        peer cannot represent: those names (and everything below them) are left out of the comparison.
+    (2) A name spelt differently on the two sides is the same path for such a pair; it is taken as equal when
+        each side holds the spelling its own user gave last and the engine was never quiet in between (two users named
+        one object differently: there is no rename to propagate).  Any other difference in spelling is a difference."""
+    cs = [p.case_sensitive for p in ex.world.provs]
+    if all(cs):
+        return a, b
+    trees = [dict(a), dict(b)]
+    for s in (0, 1):
+        if cs[s]:
+            seen = {}
+            for k in trees[s]:
+                seen.setdefault(k.lower(), set()).add(k)
+            clash = [f for f, ks in seen.items() if len(ks) > 1]
+            for t in trees:
+                for k in list(t):
+                    if any(k.lower() == f or k.lower().startswith(f + "/") for f in clash):
+                        del t[k]
+    # who introduced which spelling of a name, and when (plan index): only operations that *give* a name count (create, mkdir,
+    # the destination of a rename), and only their last component
+    intro = {}          # folded name -> [(plan index, side, spelling)]
+    quiet = []
+    for i, it in enumerate(ex.plan):
+        if it[0] == "Q" or (it[0] == "X" and it[1] == "quiet_restart"):
+            quiet.append(i)
+        if it[0] == "U" and it[2] in ("create", "mkdir", "rename", "rename_dir", "recase"):
+            dst = it[4] if it[2] in ("rename", "rename_dir", "recase") else it[3]
+            if isinstance(dst, str) and "/" in dst:
+                nm = dst.rsplit("/", 1)[1]
+                intro.setdefault(nm.lower(), []).append((i, it[1], nm))
+
+    def independent(x, y):
+        """x on side 0 and y on side 1 are spellings of one name that the two users gave independently: each side holds the
+        spelling its own user typed last, and the engine was never quiet between the moment both users had named it and the
+        last re-spelling (had it been, the pair was synchronised under one spelling and the re-spelling is a rename that
+        must be propagated)"""
+        ev = intro.get(x.lower(), [])
+        last = [None, None]
+        first = [None, None]
+        for i, sd, nm in ev:
+            last[sd] = nm
+            if first[sd] is None:
+                first[sd] = i
+        if last[0] != x or last[1] != y:
+            return False
+        i_both, i_last = max(first), ev[-1][0]
+        return not any(i_both < q < i_last for q in quiet)
+    fold1 = {k.lower(): k for k in trees[1]}
+    out = [{}, {}]
+    moved = set()
+    for k0, v0 in trees[0].items():
+        k1 = fold1.get(k0.lower())
+        if k1 is not None and k1 != k0:
+            c0, c1 = k0.split("/"), k1.split("/")
+            if all(x == y or independent(x, y) for x, y in zip(c0, c1)):
+                out[0][k0.lower()] = v0
+                out[1][k0.lower()] = trees[1][k1]
+                moved.add(k1)
+                continue
+        out[0][k0] = v0
+    for k1, v1 in trees[1].items():
+        if k1 not in moved:
+            out[1][k1] = v1
+    return out[0], out[1]
+
+
 def convergence_violation(ex):
     """C01's oracle at quiet."""
     if ex.nonquiescent:
@@ -136,7 +205,7 @@ def convergence_violation(ex):
     t0, t1 = ex.world.tree(0), ex.world.tree(1)
     if t0 is None or t1 is None:
         return Violation("root-missing", "a sync root vanished: local=%s remote=%s" % (tree_str(t0), tree_str(t1)))
-    a, b = strip_conflicted(t0), strip_conflicted(t1)
+    a, b = case_reconcile(ex, strip_conflicted(t0), strip_conflicted(t1))
     if a != b:
         toks, detail = diff_trees(a, b)
         return Violation("diverged", detail, tokens=list(toks), unhandled=[u[2] + "@" + u[3] for u in ex.world.unhandled][-4:])
